@@ -137,7 +137,7 @@ _shape = st.sampled_from(['0', 'N', 'N', 'MN', 'MN'])
 # input forms of an index array: nested list, int64 / integer-valued float64 C array (the original three), and the other
 # documented "array-like" forms: nested tuples, int32 array, non-contiguous view, Fortran order, read-only array, list of
 # numpy integer scalars
-_form = st.sampled_from(['list', 'list', 'list', 'int', 'int', 'int', 'float', 'float', 'tuple', 'i32', 'nc', 'fortran',
+_form = st.sampled_from(['list', 'list', 'list', 'list', 'int', 'int', 'int', 'float', 'float', 'tuple', 'i32', 'nc', 'fortran',
                          'ro', 'npscalars'])
 
 
@@ -224,10 +224,15 @@ _i0_99 = st.integers(0, 99)
 _origin = st.one_of(st.none(), st.lists(gens.nice(-5.0, 5.0, 2), min_size=3, max_size=3), st.lists(st.integers(-4, 4), min_size=3, max_size=3))
 _origin3 = st.lists(st.one_of(gens.nice(-5.0, 5.0, 2), st.integers(-4, 4).map(float)), min_size=3, max_size=3)
 _vform = st.sampled_from(['arr', 'arr', 'list', 'tuple', 'fortran', 'nc', 'ro', 'int'])
-_qwhat = st.sampled_from(['normal', 'normal', 'normal', 'normal', 'vector', 'family', 'read'])
+_qwhat = st.sampled_from(['normal', 'normal', 'normal', 'normal', 'vector', 'vector', 'family', 'read'])
+_qfour = st.sampled_from([0, 0, 0, 1, 2, 2])          # 4-index form: never / always / exactly when the cell is hexagonal now
+_modkind = st.sampled_from(['mod'] * 7 + ['default', 'new', 'copy'])
+_how = st.sampled_from(list(range(10)))
+_sys = st.sampled_from([0, 1, 2, 2])
+_setting_t = st.sampled_from(SETTINGS + ['t1', 't2', 't1', 't2'])
 _planes_pool = st.lists(triple, min_size=1, max_size=5)
 _uvw_pool = st.lists(small_triple, min_size=1, max_size=3)
-_holder = st.sampled_from(['box', 'box', 'system'])
+_holder = st.sampled_from(['box', 'system'])
 _nmods = st.sampled_from([1, 1, 2, 3])
 _nq = st.sampled_from([1, 1, 2])
 _qshape = st.sampled_from(['N', 'N', '0', 'MN'])
@@ -258,7 +263,7 @@ def _hist_cell(draw, prev=None):
 @st.composite
 def _query(draw):
     return {'k': 'q', 'what': draw(_qwhat), 'sel': 0 if draw(_bool) else draw(_i0_31), 'via': draw(_via),
-            'four': draw(_i03) == 0, 'form': draw(_form), 'shape': draw(_qshape), 'den': draw(_den), 'perm': draw(_i0_99)}
+            'four': draw(_qfour), 'form': draw(_form), 'shape': draw(_qshape), 'den': draw(_den), 'perm': draw(_i0_99)}
 
 
 _query_s = _query()
@@ -267,7 +272,7 @@ _query_s = _query()
 @st.composite
 def box_history_cases(draw):
     cell0 = _hist_cell(draw)
-    case = {'cell': cell0, 'form0': draw(_vform), 'holder': draw(_holder), 'planes': draw(_planes_pool), 'uvw': draw(_uvw_pool)}
+    case = {'cell': cell0, 'how0': draw(_how), 'form0': draw(_vform), 'holder': draw(_holder), 'planes': draw(_planes_pool), 'uvw': draw(_uvw_pool)}
     steps = [draw(_query_s) for _ in range(draw(_nq))]
     prev = cell0
     for _ in range(draw(_nmods)):
@@ -278,21 +283,18 @@ def box_history_cases(draw):
             steps.append({'k': 'scribble'})
         elif k == 2:
             steps.append(draw(_query_s))
-        k = draw(_i0_9)
-        if k == 0:
+        mk = draw(_modkind)
+        if mk == 'default':
             steps.append({'k': 'default'})
             prev = None
-        elif k == 1:
+        elif mk == 'new':
             prev = _hist_cell(draw, prev)
-            steps.append({'k': 'new', 'cell': prev, 'form': draw(_vform)})
-        elif k == 2:
-            steps.append({'k': 'copy'})
-            prev = _hist_cell(draw, prev)
-            steps.append({'k': 'mod', 'how': draw(_i0_99), 'cell': prev, 'form': draw(_vform), 'sys': draw(_i02),
-                          'origin': draw(_origin), 'omit': draw(_bool)})
+            steps.append({'k': 'new', 'cell': prev, 'how': draw(_how), 'form': draw(_vform)})
         else:
+            if mk == 'copy':
+                steps.append({'k': 'copy'})
             prev = _hist_cell(draw, prev)
-            steps.append({'k': 'mod', 'how': draw(_i0_99), 'cell': prev, 'form': draw(_vform), 'sys': draw(_i02),
+            steps.append({'k': 'mod', 'how': draw(_how), 'cell': prev, 'form': draw(_vform), 'sys': draw(_sys),
                           'origin': draw(_origin), 'omit': draw(_bool)})
         steps += [draw(_query_s) for _ in range(draw(_nq))]
     case['steps'] = steps
@@ -311,7 +313,16 @@ _seqlen = st.sampled_from([2, 3, 3, 4, 5])
 def call_history_cases(draw):
     n = draw(_seqlen)
     ops = []
-    if draw(_bool):
+    fl = draw(_i0_9)
+    if fl <= 2:
+        # one index block through both centring conversions with several settings (the trigonal ones twice as often)
+        rc = draw(_random_cases)
+        den = draw(_den)
+        for _ in range(n):
+            ops.append(['random', {'op': 'centering', 'form': draw(_form), 'shape': rc['shape'], 'idx': rc['idx'],
+                                   'setting': draw(_setting_t), 'den': den}])
+        return {'related': True, 'ops': ops, 'order': draw(_i0_99)}
+    if fl <= 6:
         base = draw(_random_cases)
         ops.append(['random', base])
         for _ in range(n - 1):
